@@ -41,6 +41,9 @@ pub struct RichFields {
     pub ft: Field,
     pub sortkey: Field,
     pub blob: Field,
+    /// JSON object {"n": first num, "b": has f, "w": the ft words}: indexed with positions (numbers / bools are
+    /// recorded without frequencies)
+    pub attrs: Field,
 }
 
 pub fn rich_schema() -> (Schema, RichFields) {
@@ -54,7 +57,20 @@ pub fn rich_schema() -> (Schema, RichFields) {
     let ft = sb.add_text_field("ft", ft_opts);
     let sortkey = sb.add_u64_field("sortkey", FAST | INDEXED);
     let blob = sb.add_bytes_field("blob", STORED);
-    (sb.build(), RichFields { uid, title, tag, num, f, ft, sortkey, blob })
+    let attrs = sb.add_json_field("attrs", TEXT);
+    (sb.build(), RichFields { uid, title, tag, num, f, ft, sortkey, blob, attrs })
+}
+
+fn add_attrs(t: &mut TantivyDocument, d: &RichDoc, f: &RichFields) {
+    let mut obj: Vec<(String, OwnedValue)> = vec![];
+    if let Some(n) = d.nums.first() {
+        obj.push(("n".into(), OwnedValue::I64(*n as i64 % 7)));
+    }
+    obj.push(("b".into(), OwnedValue::Bool(d.f.is_some())));
+    if !d.ft.is_empty() {
+        obj.push(("w".into(), OwnedValue::Str(words(&d.ft))));
+    }
+    t.add_field_value(f.attrs, &OwnedValue::Object(obj));
 }
 
 pub fn words(ws: &[u8]) -> String {
@@ -84,6 +100,7 @@ pub fn to_tantivy(uid: u64, d: &RichDoc, f: &RichFields) -> TantivyDocument {
         let bytes: Vec<u8> = (0..d.blob_len as usize).map(|i| (i as u8).wrapping_mul(31).wrapping_add(uid as u8)).collect();
         t.add_bytes(f.blob, &bytes);
     }
+    add_attrs(&mut t, d, f);
     t
 }
 
@@ -106,7 +123,8 @@ pub fn rich_schema_sorted(kind: u8) -> (Schema, RichFields) {
         _ => sb.add_bytes_field("sortkey", FAST | STORED),
     };
     let blob = sb.add_bytes_field("blob", STORED);
-    (sb.build(), RichFields { uid, title, tag, num, f, ft, sortkey, blob })
+    let attrs = sb.add_json_field("attrs", TEXT);
+    (sb.build(), RichFields { uid, title, tag, num, f, ft, sortkey, blob, attrs })
 }
 
 /// Adds the sort value `x` (None = no value) in the representation of `kind`; the mapping is strictly monotone.
@@ -145,5 +163,6 @@ pub fn to_tantivy_sorted(uid: u64, d: &RichDoc, f: &RichFields, kind: u8, x: Opt
         let bytes: Vec<u8> = (0..d.blob_len as usize).map(|i| (i as u8).wrapping_mul(31).wrapping_add(uid as u8)).collect();
         t.add_bytes(f.blob, &bytes);
     }
+    add_attrs(&mut t, d, f);
     t
 }
